@@ -2,16 +2,19 @@ import Chihaya.Props.C01
 import Chihaya.Props.C13
 import Chihaya.Lemmas.HttpParse
 import Chihaya.Lemmas.Slice
+import Chihaya.Props.Redis
 /-!
-# C13, composed: no HTTP announce line can crash the writer in any reachable state (memory store)
+# C13, composed: no HTTP announce line can crash the writer in any reachable state (both stores)
 
 `C13_http_body` assumed that the store only hands out peers whose address has the length of its
-family. Here that assumption is discharged for the whole request path over the memory store:
-the parser + `SanitizeAnnounce` give every announcing peer a 20-byte ID and a 4- or 16-byte address
-(`parseAnnounce_peerOK`), every store operation keeps "all keys of family f are 22 + |f| bytes"
-(`viewKeysOK_spec`, stated on the specification, so it holds for the Redis store too), the response
-hook decodes what it is handed (`memOps_announcePeers_ok`), and therefore for every history of
-request lines and expiry passes the next request line is answered (`C13_http_always_answered`).
+family. Here that assumption is discharged for the whole request path: the parsers +
+`SanitizeAnnounce` give every announcing peer a 20-byte ID and a 4- or 16-byte address
+(`parseAnnounce_peerOK`, `udp_parseAnnounce_peerOK`), every store operation keeps "all keys of family f
+are 22 + |f| bytes" (`viewKeysOK_spec`, stated on the specification both stores refine), the response
+hook decodes what it is handed, and therefore for every history of HTTP request lines, UDP datagrams
+and expiry passes the next request line is answered (`http_always_answered`, for any `StoreModel`;
+instantiated with the memory store for every shard count — `C13_http_always_answered` — and with the
+Redis store — `C13_http_always_answered_redis`).
 -/
 namespace Tracker
 open MemStore (Swarm PMap Op View specUpd fPutSeeder fPutLeecher fDelSeeder fDelLeecher fExpire peerKey Mem)
@@ -23,10 +26,6 @@ def famLen : Fam → Nat
 
 /-- what `SanitizeAnnounce` and the parsers guarantee about the announcing peer -/
 def PeerOK (p : Peer) : Prop := p.id.length = 20 ∧ p.ip.length = famLen p.fam
-
-/-- every stored peer key of family `f` is 20 + 2 + (4 | 16) bytes long -/
-def ViewKeysOK (σ : View) : Prop :=
-  ∀ ih f k, (k ∈ keys (σ ih f).seeders ∨ k ∈ keys (σ ih f).leechers) → k.length = 22 + famLen f
 
 theorem peerKey_length (p : Peer) (h : PeerOK p) : (peerKey p).length = 22 + famLen p.fam := by
   unfold peerKey Bytes.be16
@@ -54,9 +53,17 @@ def Op.PeerOK : Op → Prop
   | .putSeeder _ p _ | .putLeecher _ p _ | .graduate _ p _ | .deleteSeeder _ p | .deleteLeecher _ p => Tracker.PeerOK p
   | .gc _ => True
 
-/-- the specification of every store operation keeps the key-length invariant, when the peer it is
-given is one a frontend can produce -/
-theorem viewKeysOK_spec (σ : View) (h : ViewKeysOK σ) (op : Op) (hop : Op.PeerOK op) : ViewKeysOK (op.spec σ) := by
+/-- every stored key of family `f` satisfies `P f` -/
+def ViewKeysSat (P : Fam → Bytes → Prop) (σ : View) : Prop :=
+  ∀ ih f k, (k ∈ keys (σ ih f).seeders ∨ k ∈ keys (σ ih f).leechers) → P f k
+
+def Op.peer? : Op → Option Peer
+  | .putSeeder _ p _ | .putLeecher _ p _ | .graduate _ p _ | .deleteSeeder _ p | .deleteLeecher _ p => some p
+  | .gc _ => none
+
+/-- a key enters a swarm of family `f` only as the key of the operation's own peer, whose family is `f` -/
+theorem viewKeysSat_spec (P : Fam → Bytes → Prop) (σ : View) (h : ViewKeysSat P σ) (op : Op)
+    (hop : ∀ p, Op.peer? op = some p → P p.fam (peerKey p)) : ViewKeysSat P (op.spec σ) := by
   intro ih f k hk
   cases op with
   | putSeeder ih0 p now =>
@@ -66,7 +73,7 @@ theorem viewKeysOK_spec (σ : View) (h : ViewKeysOK σ) (op : Op) (hop : Op.Peer
       simp only [fPutSeeder] at hk
       rcases hk with hk | hk
       · rcases mem_keys_set _ _ _ _ hk with e | hk
-        · rw [e]; exact peerKey_length p hop
+        · rw [e]; exact hop p rfl
         · exact h _ _ _ (Or.inl hk)
       · exact h _ _ _ (Or.inr (mem_keys_erase _ _ _ hk))
     · exact h _ _ _ hk
@@ -77,7 +84,7 @@ theorem viewKeysOK_spec (σ : View) (h : ViewKeysOK σ) (op : Op) (hop : Op.Peer
       simp only [fPutSeeder] at hk
       rcases hk with hk | hk
       · rcases mem_keys_set _ _ _ _ hk with e | hk
-        · rw [e]; exact peerKey_length p hop
+        · rw [e]; exact hop p rfl
         · exact h _ _ _ (Or.inl hk)
       · exact h _ _ _ (Or.inr (mem_keys_erase _ _ _ hk))
     · exact h _ _ _ hk
@@ -89,7 +96,7 @@ theorem viewKeysOK_spec (σ : View) (h : ViewKeysOK σ) (op : Op) (hop : Op.Peer
       rcases hk with hk | hk
       · exact h _ _ _ (Or.inl (mem_keys_erase _ _ _ hk))
       · rcases mem_keys_set _ _ _ _ hk with e | hk
-        · rw [e]; exact peerKey_length p hop
+        · rw [e]; exact hop p rfl
         · exact h _ _ _ (Or.inr hk)
     · exact h _ _ _ hk
   | deleteSeeder ih0 p =>
@@ -116,6 +123,15 @@ theorem viewKeysOK_spec (σ : View) (h : ViewKeysOK σ) (op : Op) (hop : Op.Peer
     · exact h _ _ _ (Or.inl (mem_keys_filter _ _ _ hk))
     · exact h _ _ _ (Or.inr (mem_keys_filter _ _ _ hk))
 
+/-- every stored peer key of family `f` is 20 + 2 + (4 | 16) bytes long -/
+def ViewKeysOK (σ : View) : Prop := ViewKeysSat (fun f k => k.length = 22 + famLen f) σ
+
+/-- the specification of every store operation keeps the key-length invariant, when the peer it is
+given is one a frontend can produce -/
+theorem viewKeysOK_spec (σ : View) (h : ViewKeysOK σ) (op : Op) (hop : Op.PeerOK op) : ViewKeysOK (op.spec σ) := by
+  apply viewKeysSat_spec _ σ h op
+  intro p hp
+  cases op <;> simp only [Op.peer?, Option.some.injEq] at hp <;> first | (subst hp; exact peerKey_length _ hop) | cases hp
 
 /-! ## what the memory store hands out -/
 
@@ -189,9 +205,28 @@ theorem runAnn_go_peers (pre : List AnnHook) (last : AnnHook) (req : AnnReq)
       have hp := hpre hk (by simp) ctx req resp c' r' hh
       exact ih (fun h' hh' => hpre h' (by simp [hh'])) (i + 1) c' r' (hp.1.trans h4) (hp.2.trans h6) h
 
-theorem responseAnnounce_peers (now : Int) (m : Mem) (hk : ViewKeysOK m.view) (req : AnnReq) (hreq : PeerOK req.peer)
+/-! ## a store, as far as this argument needs it -/
+
+/-- what the composition needs from a store: an invariant every operation keeps (for peers a frontend
+can produce) and under which what it hands out has addresses of the requester's family -/
+structure StoreModel (σ : Type) where
+  ops : Int → StoreOps σ
+  gc : σ → Int → σ
+  Good : σ → Prop
+  hands_out : ∀ now s, Good s → ∀ ih seeder nw p out, (ops now).announcePeers s ih seeder nw p = some out →
+    ∀ q ∈ out, q.ip.length = famLen p.fam
+  putSeeder : ∀ now s ih p, Good s → PeerOK p → Good ((ops now).putSeeder s ih p)
+  putLeecher : ∀ now s ih p, Good s → PeerOK p → Good ((ops now).putLeecher s ih p)
+  graduate : ∀ now s ih p, Good s → PeerOK p → Good ((ops now).graduate s ih p)
+  deleteSeeder : ∀ now s ih p, Good s → PeerOK p → Good ((ops now).deleteSeeder s ih p).1
+  deleteLeecher : ∀ now s ih p, Good s → PeerOK p → Good ((ops now).deleteLeecher s ih p).1
+  gcGood : ∀ s cutoff, Good s → Good (gc s cutoff)
+
+variable {σ : Type}
+
+theorem responseAnnounce_peers (M : StoreModel σ) (now : Int) (m : σ) (hg : M.Good m) (req : AnnReq) (hreq : PeerOK req.peer)
     (ctx : Ctx) (resp : AnnResp) (ctx' : Ctx) (resp' : AnnResp) (h4 : resp.v4peers = []) (h6 : resp.v6peers = [])
-    (h : responseAnnounce (memOps now) m ctx req resp = .ok (ctx', resp')) : RespPeersOK resp' := by
+    (h : responseAnnounce (M.ops now) m ctx req resp = .ok (ctx', resp')) : RespPeersOK resp' := by
   unfold responseAnnounce at h
   split at h
   · simp only [Except.ok.injEq, Prod.mk.injEq] at h
@@ -199,12 +234,12 @@ theorem responseAnnounce_peers (now : Int) (m : Mem) (hk : ViewKeysOK m.view) (r
     exact ⟨by simp [h4], by simp [h6]⟩
   · simp only [Except.ok.injEq, Prod.mk.injEq] at h
     obtain ⟨_, rfl⟩ := h
-    have hout : ∀ q ∈ ((memOps now).announcePeers m req.infoHash (decide (req.left = 0)) req.numWant req.peer).getD [], q.ip.length = famLen req.peer.fam := by
-      cases ha : (memOps now).announcePeers m req.infoHash (decide (req.left = 0)) req.numWant req.peer with
+    have hout : ∀ q ∈ ((M.ops now).announcePeers m req.infoHash (decide (req.left = 0)) req.numWant req.peer).getD [], q.ip.length = famLen req.peer.fam := by
+      cases ha : (M.ops now).announcePeers m req.infoHash (decide (req.left = 0)) req.numWant req.peer with
       | none => simp
-      | some out => simpa using memOps_announcePeers_ok now m hk _ _ _ _ out ha
-    have hall : ∀ q ∈ (if (((memOps now).announcePeers m req.infoHash (decide (req.left = 0)) req.numWant req.peer).getD []).isEmpty then [req.peer]
-        else ((memOps now).announcePeers m req.infoHash (decide (req.left = 0)) req.numWant req.peer).getD []), q.ip.length = famLen req.peer.fam := by
+      | some out => simpa using M.hands_out now m hg _ _ _ _ out ha
+    have hall : ∀ q ∈ (if (((M.ops now).announcePeers m req.infoHash (decide (req.left = 0)) req.numWant req.peer).getD []).isEmpty then [req.peer]
+        else ((M.ops now).announcePeers m req.infoHash (decide (req.left = 0)) req.numWant req.peer).getD []), q.ip.length = famLen req.peer.fam := by
       split
       · intro q hq; simp only [List.mem_singleton] at hq; rw [hq]; exact hreq.2
       · exact hout
@@ -222,7 +257,6 @@ theorem responseAnnounce_peers (now : Int) (m : Mem) (hk : ViewKeysOK m.view) (r
       apply hall p
       split <;> simp_all
 
-
 /-! ## the announcing peer a frontend hands to the logic -/
 
 theorem parseAnnounce_peerOK (env : HttpParse.Env) (uri : Bytes) (opts : ParseOpts) (r : AnnReq)
@@ -234,36 +268,20 @@ theorem parseAnnounce_peerOK (env : HttpParse.Env) (uri : Bytes) (opts : ParseOp
   refine ⟨by rw [hidEq]; exact hid, ?_⟩
   rcases hfam with ⟨hf, hl⟩ | ⟨hf, hl, _⟩ <;> simp [hf, hl, famLen]
 
-/-! ## one request against the memory store -/
+/-! ## one request against a store -/
 
-def Good (m : Mem) : Prop := m.Inv ∧ ViewKeysOK m.view
-
-theorem good_apply (m : Mem) (hg : Good m) (op : Op) (hop : Op.PeerOK op) : Good (m.apply op) :=
-  ⟨MemStore.C17_step m hg.1 op, by rw [MemStore.C01_refines m hg.1 op]; exact viewKeysOK_spec _ hg.2 op hop⟩
-
-theorem good_init (n : Nat) (hn : 0 < n) : Good (MemStore.init n) := by
-  refine ⟨MemStore.init_inv n hn, ?_⟩
-  intro ih f k hk
-  have : (MemStore.init n).view ih f = MemStore.emptySwarm := by
-    have hi := MemStore.shardIndex_lt n hn ih f
-    simp only [Mem.view, MemStore.init, Mem.shard, List.getD_eq_getElem?_getD, List.getElem?_replicate]
-    split <;> rfl
-  rw [this] at hk
-  simp [MemStore.emptySwarm, keys] at hk
-
-theorem good_swarmInteraction (now : Int) (m : Mem) (hg : Good m) (ctx : Ctx) (req : AnnReq) (hreq : PeerOK req.peer) :
-    Good (swarmInteraction (memOps now) m ctx req) := by
+theorem good_swarmInteraction (M : StoreModel σ) (now : Int) (m : σ) (hg : M.Good m) (ctx : Ctx) (req : AnnReq) (hreq : PeerOK req.peer) :
+    M.Good (swarmInteraction (M.ops now) m ctx req) := by
   unfold swarmInteraction
   split
   · exact hg
   · split
-    · exact good_apply _ (good_apply m hg (.deleteSeeder req.infoHash req.peer) hreq) (.deleteLeecher req.infoHash req.peer) hreq
-    · exact good_apply m hg (.graduate req.infoHash req.peer now) hreq
+    · exact M.deleteLeecher now _ _ _ (M.deleteSeeder now m _ _ hg hreq) hreq
+    · exact M.graduate now m _ _ hg hreq
     · split
-      · exact good_apply m hg (.putSeeder req.infoHash req.peer now) hreq
-      · exact good_apply m hg (.putLeecher req.infoHash req.peer now) hreq
+      · exact M.putSeeder now m _ _ hg hreq
+      · exact M.putLeecher now m _ _ hg hreq
 
-/-- `C13_http_body` needs the store hypothesis only for the request that was parsed -/
 theorem http_body_of_parsed {σ : Type} (env : HttpParse.Env) (opts : ParseOpts) (cfg : Logic.Config) (ops : StoreOps σ) (hooks : Hooks)
     (ipText : Bytes → Bytes) (st : σ) (uri : Bytes)
     (hstore : ∀ req, HttpParse.parseAnnounce env uri opts = .ok req → ∀ ctx resp,
@@ -290,26 +308,26 @@ theorem http_body_of_parsed {σ : Type} (env : HttpParse.Env) (opts : ParseOpts)
 structure GoodHooks (hooks : Hooks) : Prop where
   pre : ∀ h ∈ hooks.preAnn, PeersPreserving h
 
-/-- **One HTTP announce against the memory store**: whatever the request line, the response has a
-body (the writer does not panic), and the store keeps its invariants -/
-theorem http_step (env : HttpParse.Env) (opts : ParseOpts) (cfg : Logic.Config) (hooks : Hooks) (hh : GoodHooks hooks)
-    (ipText : Bytes → Bytes) (now : Int) (m : Mem) (hg : Good m) (uri : Bytes) :
-    (httpAnnounce env opts cfg (memOps now) hooks ipText m uri).body.isSome = true ∧
-    Good (httpAnnounce env opts cfg (memOps now) hooks ipText m uri).store := by
+/-- **One HTTP announce against a store**: whatever the request line, the response has a body (the
+writer does not panic), and the store keeps its invariants -/
+theorem http_step (M : StoreModel σ) (env : HttpParse.Env) (opts : ParseOpts) (cfg : Logic.Config) (hooks : Hooks) (hh : GoodHooks hooks)
+    (ipText : Bytes → Bytes) (now : Int) (m : σ) (hg : M.Good m) (uri : Bytes) :
+    (httpAnnounce env opts cfg (M.ops now) hooks ipText m uri).body.isSome = true ∧
+    M.Good (httpAnnounce env opts cfg (M.ops now) hooks ipText m uri).store := by
   refine ⟨?_, ?_⟩
   · apply http_body_of_parsed
     intro req hp ctx resp h
     have hreq := parseAnnounce_peerOK env uri opts req hp
     unfold handleAnnounce runAnn at h
-    exact runAnn_go_peers hooks.preAnn (responseAnnounce (memOps now) m) req hh.pre
-      (fun ctx resp ctx' resp' h4 h6 hl => responseAnnounce_peers now m hg.2 req hreq ctx resp ctx' resp' h4 h6 hl)
+    exact runAnn_go_peers hooks.preAnn (responseAnnounce (M.ops now) m) req hh.pre
+      (fun ctx resp ctx' resp' h4 h6 hl => responseAnnounce_peers M now m hg req hreq ctx resp ctx' resp' h4 h6 hl)
       0 {} (initResp cfg req) rfl rfl ctx resp h
   · unfold httpAnnounce
     cases hp : HttpParse.parseAnnounce env uri opts with
     | error e => exact hg
     | ok req =>
       simp only
-      cases hha : handleAnnounce cfg (memOps now) hooks.preAnn m req with
+      cases hha : handleAnnounce cfg (M.ops now) hooks.preAnn m req with
       | mk log res =>
         cases res with
         | error e => exact hg
@@ -321,8 +339,7 @@ theorem http_step (env : HttpParse.Env) (opts : ParseOpts) (cfg : Logic.Config) 
           | mk plog pres =>
             cases pres with
             | error e => exact hg
-            | ok cr' => exact good_swarmInteraction now m hg _ req (parseAnnounce_peerOK env uri opts req hp)
-
+            | ok cr' => exact good_swarmInteraction M now m hg _ req (parseAnnounce_peerOK env uri opts req hp)
 
 theorem udp_parseAnnounce_peerOK (lower : Bytes → Bytes) (pkt src : Bytes) (v6 : Bool) (opts : ParseOpts) (r : AnnReq)
     (h : Udp.parseAnnounce lower pkt src v6 opts = .ok r) : PeerOK r.peer := by
@@ -381,10 +398,10 @@ theorem udp_call_parsed (mac : Udp.Mac) (lower : Bytes → Bytes) (ucfg : Udp.Cf
           · simp at h
 
 
-/-- one datagram against the memory store keeps the store's invariants -/
-theorem udp_step (mac : Udp.Mac) (lower : Bytes → Bytes) (ucfg : Udp.Cfg) (cfg : Logic.Config) (hooks : Hooks)
-    (now : Int) (m : Mem) (hg : Good m) (pkt src : Bytes) :
-    Good (udpStoreAfter cfg (memOps now) hooks m (Udp.handleRequest mac lower ucfg (udpLogic cfg (memOps now) hooks m) now pkt src)).1 := by
+/-- one datagram against a store keeps the store's invariants -/
+theorem udp_step (M : StoreModel σ) (mac : Udp.Mac) (lower : Bytes → Bytes) (ucfg : Udp.Cfg) (cfg : Logic.Config) (hooks : Hooks)
+    (now : Int) (m : σ) (hg : M.Good m) (pkt src : Bytes) :
+    M.Good (udpStoreAfter cfg (M.ops now) hooks m (Udp.handleRequest mac lower ucfg (udpLogic cfg (M.ops now) hooks m) now pkt src)).1 := by
   unfold udpStoreAfter
   split
   · rename_i req hafter hcall
@@ -396,7 +413,7 @@ theorem udp_step (mac : Udp.Mac) (lower : Bytes → Bytes) (ucfg : Udp.Cfg) (cfg
       unfold afterAnnounce
       split
       · exact hg
-      · exact good_swarmInteraction now m hg _ req hreq
+      · exact good_swarmInteraction M now m hg _ req hreq
     · exact hg
   · exact hg
 
@@ -417,43 +434,164 @@ structure Setup where
   mac : Udp.Mac
   ucfg : Udp.Cfg
 
-def stepEv (s : Setup) (m : Mem) : Ev → Mem
-  | .httpAnnounce now uri => (httpAnnounce s.env s.opts s.cfg (memOps now) s.hooks s.ipText m uri).store
+def stepEv (M : StoreModel σ) (s : Setup) (m : σ) : Ev → σ
+  | .httpAnnounce now uri => (httpAnnounce s.env s.opts s.cfg (M.ops now) s.hooks s.ipText m uri).store
   | .udp now pkt src =>
-    (udpStoreAfter s.cfg (memOps now) s.hooks m
-      (Udp.handleRequest s.mac s.env.lower s.ucfg (udpLogic s.cfg (memOps now) s.hooks m) now pkt src)).1
-  | .gc cutoff => m.gc cutoff
+    (udpStoreAfter s.cfg (M.ops now) s.hooks m
+      (Udp.handleRequest s.mac s.env.lower s.ucfg (udpLogic s.cfg (M.ops now) s.hooks m) now pkt src)).1
+  | .gc cutoff => M.gc m cutoff
 
-theorem good_history (n : Nat) (hn : 0 < n) (s : Setup) (hh : GoodHooks s.hooks) (evs : List Ev) :
-    Good (evs.foldl (stepEv s) (MemStore.init n)) := by
-  have key : ∀ m, Good m → Good (evs.foldl (stepEv s) m) := by
-    induction evs with
-    | nil => intro m h; exact h
-    | cons e rest ih =>
-      intro m h
-      simp only [List.foldl_cons]
-      apply ih
-      cases e with
-      | httpAnnounce now uri => exact (http_step s.env s.opts s.cfg s.hooks hh s.ipText now m h uri).2
-      | udp now pkt src => exact udp_step s.mac s.env.lower s.ucfg s.cfg s.hooks now m h pkt src
-      | gc cutoff => exact good_apply m h (.gc cutoff) trivial
-  exact key _ (good_init n hn)
+theorem good_history (M : StoreModel σ) (m0 : σ) (h0 : M.Good m0) (s : Setup) (hh : GoodHooks s.hooks) (evs : List Ev) :
+    M.Good (evs.foldl (stepEv M s) m0) := by
+  induction evs generalizing m0 with
+  | nil => exact h0
+  | cons e rest ih =>
+    simp only [List.foldl_cons]
+    apply ih
+    cases e with
+    | httpAnnounce now uri => exact (http_step M s.env s.opts s.cfg s.hooks hh s.ipText now m0 h0 uri).2
+    | udp now pkt src => exact udp_step M s.mac s.env.lower s.ucfg s.cfg s.hooks now m0 h0 pkt src
+    | gc cutoff => exact M.gcGood m0 cutoff h0
 
-/-- **No HTTP announce can make the writer panic, in any reachable state of the memory store**: for every
-shard count, every history of HTTP request lines and UDP datagrams (arbitrary bytes, any source, any
-clock) and expiry passes, every pre-hook chain that leaves the peer lists alone and every post-hook
-chain whatsoever, the next request line — whatever it is — is answered with a body. (The hypothesis
-of `C13_http_body` is discharged: all keys the store holds have the address length of their family.) -/
+/-- **No HTTP announce can make the writer panic, in any reachable state of a store**: for every history of
+HTTP request lines and UDP datagrams (arbitrary bytes, any source, any clock) and expiry passes, every
+pre-hook chain that leaves the peer lists alone and every post-hook chain whatsoever, the next request
+line — whatever it is — is answered with a body. -/
+theorem http_always_answered (M : StoreModel σ) (m0 : σ) (h0 : M.Good m0) (s : Setup) (hh : GoodHooks s.hooks) (evs : List Ev) (now : Int) (uri : Bytes) :
+    (httpAnnounce s.env s.opts s.cfg (M.ops now) s.hooks s.ipText (evs.foldl (stepEv M s) m0) uri).body.isSome = true :=
+  (http_step M s.env s.opts s.cfg s.hooks hh s.ipText now _ (good_history M m0 h0 s hh evs) uri).1
+
+/-! ## the memory store is such a store -/
+
+def GoodMem (m : Mem) : Prop := m.Inv ∧ ViewKeysOK m.view
+
+theorem goodMem_apply (m : Mem) (hg : GoodMem m) (op : Op) (hop : Op.PeerOK op) : GoodMem (m.apply op) :=
+  ⟨MemStore.C17_step m hg.1 op, by rw [MemStore.C01_refines m hg.1 op]; exact viewKeysOK_spec _ hg.2 op hop⟩
+
+theorem goodMem_init (n : Nat) (hn : 0 < n) : GoodMem (MemStore.init n) := by
+  refine ⟨MemStore.init_inv n hn, ?_⟩
+  intro ih f k hk
+  have : (MemStore.init n).view ih f = MemStore.emptySwarm := by
+    have hi := MemStore.shardIndex_lt n hn ih f
+    simp only [Mem.view, MemStore.init, Mem.shard, List.getD_eq_getElem?_getD, List.getElem?_replicate]
+    split <;> rfl
+  rw [this] at hk
+  simp [MemStore.emptySwarm, keys] at hk
+
+def memModel : StoreModel Mem where
+  ops := memOps
+  gc := fun m c => m.gc c
+  Good := GoodMem
+  hands_out := fun now s hg ih seeder nw p out h => memOps_announcePeers_ok now s hg.2 ih seeder nw p out h
+  putSeeder := fun now s ih p hg hp => goodMem_apply s hg (.putSeeder ih p now) hp
+  putLeecher := fun now s ih p hg hp => goodMem_apply s hg (.putLeecher ih p now) hp
+  graduate := fun now s ih p hg hp => goodMem_apply s hg (.graduate ih p now) hp
+  deleteSeeder := fun _ s ih p hg hp => goodMem_apply s hg (.deleteSeeder ih p) hp
+  deleteLeecher := fun _ s ih p hg hp => goodMem_apply s hg (.deleteLeecher ih p) hp
+  gcGood := fun s c hg => goodMem_apply s hg (.gc c) trivial
+
+/-- C13 over the memory store, for every shard count -/
 theorem C13_http_always_answered (n : Nat) (hn : 0 < n) (s : Setup) (hh : GoodHooks s.hooks) (evs : List Ev) (now : Int) (uri : Bytes) :
-    (httpAnnounce s.env s.opts s.cfg (memOps now) s.hooks s.ipText (evs.foldl (stepEv s) (MemStore.init n)) uri).body.isSome = true :=
-  (http_step s.env s.opts s.cfg s.hooks hh s.ipText now _ (good_history n hn s hh evs) uri).1
+    (httpAnnounce s.env s.opts s.cfg (memOps now) s.hooks s.ipText (evs.foldl (stepEv memModel s) (MemStore.init n)) uri).body.isSome = true :=
+  http_always_answered memModel _ (goodMem_init n hn) s hh evs now uri
 
 /-- the stored peers of a reachable state decode to addresses of their family's length -/
 theorem C13_store_hands_out_family_addresses (n : Nat) (hn : 0 < n) (s : Setup) (hh : GoodHooks s.hooks) (evs : List Ev)
     (now : Int) (ih : Bytes) (seeder : Bool) (nw : Nat) (p : Peer) (out : List Peer)
-    (h : (memOps now).announcePeers (evs.foldl (stepEv s) (MemStore.init n)) ih seeder nw p = some out) :
+    (h : (memOps now).announcePeers (evs.foldl (stepEv memModel s) (MemStore.init n)) ih seeder nw p = some out) :
     ∀ q ∈ out, q.ip.length = famLen p.fam :=
-  memOps_announcePeers_ok now _ (good_history n hn s hh evs).2 ih seeder nw p out h
+  memOps_announcePeers_ok now _ (good_history memModel _ (goodMem_init n hn) s hh evs).2 ih seeder nw p out h
+
+/-! ## and so is the Redis store -/
+
+/-- the Redis store behind the tracker logic (decoding the hash fields it reads, like `decodePeerKey`) -/
+def redisOps (now : Int) : StoreOps RedisStore.RState where
+  putSeeder s ih p := RedisStore.putSeeder s ih p now
+  putLeecher s ih p := RedisStore.putLeecher s ih p now
+  graduate s ih p := RedisStore.graduate s ih p now
+  deleteSeeder s ih p := RedisStore.deleteSeeder s ih p
+  deleteLeecher s ih p := RedisStore.deleteLeecher s ih p
+  scrape s ih f := RedisStore.scrape s ih f
+  announcePeers s ih seeder nw p := (RedisStore.announcePeers s ih seeder nw p).map (·.map (decodePeerKey p.fam))
+
+def GoodRedis (s : RedisStore.RState) : Prop := RedisStore.RInv s ∧ ViewKeysOK (RedisStore.view s)
+
+theorem goodRedis_apply (s : RedisStore.RState) (hg : GoodRedis s) (op : Op) (hop : Op.PeerOK op) : GoodRedis (RedisStore.apply s op) :=
+  ⟨RedisStore.Redis_step s hg.1 op, by rw [RedisStore.Redis_refines s hg.1 op]; exact viewKeysOK_spec _ hg.2 op hop⟩
+
+theorem goodRedis_init : GoodRedis {} := by
+  refine ⟨RedisStore.init_inv, ?_⟩
+  intro ih f k hk
+  simp [RedisStore.view, RedisStore.hget, keys] at hk
+
+theorem redisOps_announcePeers_ok (now : Int) (s : RedisStore.RState) (hk : ViewKeysOK (RedisStore.view s)) (ih : Bytes) (seeder : Bool) (nw : Nat) (p : Peer)
+    (out : List Peer) (h : (redisOps now).announcePeers s ih seeder nw p = some out) :
+    ∀ q ∈ out, q.ip.length = famLen p.fam := by
+  simp only [redisOps, RedisStore.Redis_announce] at h
+  split at h
+  · simp at h
+  · simp only [Option.map_some, Option.some.injEq] at h
+    subst h
+    intro q hq
+    obtain ⟨k, hk', rfl⟩ := List.mem_map.mp hq
+    have := selectPeers_subset _ seeder nw (peerKey p) k hk'
+    exact (decodePeerKey_ip p.fam k (hk ih p.fam k this)).1
+
+def redisModel : StoreModel RedisStore.RState where
+  ops := redisOps
+  gc := RedisStore.gc
+  Good := GoodRedis
+  hands_out := fun now s hg ih seeder nw p out h => redisOps_announcePeers_ok now s hg.2 ih seeder nw p out h
+  putSeeder := fun now s ih p hg hp => goodRedis_apply s hg (.putSeeder ih p now) hp
+  putLeecher := fun now s ih p hg hp => goodRedis_apply s hg (.putLeecher ih p now) hp
+  graduate := fun now s ih p hg hp => goodRedis_apply s hg (.graduate ih p now) hp
+  deleteSeeder := fun _ s ih p hg hp => goodRedis_apply s hg (.deleteSeeder ih p) hp
+  deleteLeecher := fun _ s ih p hg hp => goodRedis_apply s hg (.deleteLeecher ih p) hp
+  gcGood := fun s c hg => goodRedis_apply s hg (.gc c) trivial
+
+/-- C13 over the Redis store (sequential command groups) -/
+theorem C13_http_always_answered_redis (s : Setup) (hh : GoodHooks s.hooks) (evs : List Ev) (now : Int) (uri : Bytes) :
+    (httpAnnounce s.env s.opts s.cfg (redisOps now) s.hooks s.ipText (evs.foldl (stepEv redisModel s) {}) uri).body.isSome = true :=
+  http_always_answered redisModel _ goodRedis_init s hh evs now uri
+
+/-! ## provenance (C03) -/
+
+/-- **Provenance** (C03, on the specification both stores refine): after any history, every key listed in
+a swarm of family `f` — hence every peer a request of family `f` can be handed — is the key of a peer
+that some operation of the history carried with that very family. A peer announced under one family is
+never listed under the other. -/
+theorem provenance (ops : List Op) (ih : Bytes) (f : Fam) (k : Bytes)
+    (hk : k ∈ keys ((ops.foldl (fun σ op => op.spec σ) (fun _ _ => MemStore.emptySwarm)) ih f).seeders ∨
+          k ∈ keys ((ops.foldl (fun σ op => op.spec σ) (fun _ _ => MemStore.emptySwarm)) ih f).leechers) :
+    ∃ op ∈ ops, ∃ p, Op.peer? op = some p ∧ p.fam = f ∧ peerKey p = k := by
+  let P : Fam → Bytes → Prop := fun f k => ∃ op ∈ ops, ∃ p, Op.peer? op = some p ∧ p.fam = f ∧ peerKey p = k
+  have key : ∀ (done : List Op) (σ : View), (∀ op ∈ done, op ∈ ops) → ViewKeysSat P σ →
+      ViewKeysSat P (done.foldl (fun σ op => op.spec σ) σ) := by
+    intro done
+    induction done with
+    | nil => intro σ _ h; exact h
+    | cons op rest ih' =>
+      intro σ hsub h
+      simp only [List.foldl_cons]
+      apply ih' _ (fun o ho => hsub o (by simp [ho]))
+      exact viewKeysSat_spec P σ h op (fun p hp => ⟨op, hsub op (by simp), p, hp, rfl, rfl⟩)
+  have h0 : ViewKeysSat P (fun _ _ => MemStore.emptySwarm) := by
+    intro ih f k hk; simp [MemStore.emptySwarm, keys] at hk
+  exact key ops _ (fun _ h => h) h0 ih f k hk
+
+/-- the same for the memory store itself, any shard count … -/
+theorem provenance_memory (n : Nat) (hn : 0 < n) (ops : List Op) (ih : Bytes) (f : Fam) (k : Bytes)
+    (hk : k ∈ keys ((ops.foldl Mem.apply (MemStore.init n)).view ih f).seeders ∨ k ∈ keys ((ops.foldl Mem.apply (MemStore.init n)).view ih f).leechers) :
+    ∃ op ∈ ops, ∃ p, Op.peer? op = some p ∧ p.fam = f ∧ peerKey p = k := by
+  rw [MemStore.C01_history n hn ops] at hk
+  exact provenance ops ih f k hk
+
+/-- … and for the Redis store -/
+theorem provenance_redis (ops : List Op) (ih : Bytes) (f : Fam) (k : Bytes)
+    (hk : k ∈ keys (RedisStore.view (ops.foldl RedisStore.apply {}) ih f).seeders ∨ k ∈ keys (RedisStore.view (ops.foldl RedisStore.apply {}) ih f).leechers) :
+    ∃ op ∈ ops, ∃ p, Op.peer? op = some p ∧ p.fam = f ∧ peerKey p = k := by
+  rw [RedisStore.Redis_history ops] at hk
+  exact provenance ops ih f k hk
 
 /-- non-vacuity: the empty hook chains are good, and so is a chain of hooks that only touch the intervals -/
 example : GoodHooks ⟨[], [], [], []⟩ := ⟨by simp⟩
